@@ -1191,3 +1191,55 @@ package rux
 //@   requires c.Req != nil && c.Req.URL != nil
 //@   modifies decodedKind(refof(obj)), decodedFrom(refof(obj)), validatedOK(refof(obj)), c.Req.Form, c.Req.PostForm, c.Req.MultipartForm
 //@   ensures success_means_validated: result == nil && binding.Validator != nil ==> validatedOK(refof(obj))
+
+// ---------------------------------------------------------------------------
+// Static file handlers (C17): delegation. Confinement to the root is enforced inside net/http (http.Dir,
+// http.FileServer, http.ServeFile) and is assumed; what is proved is that the handlers registered by
+// StaticDir/StaticFS/StaticFiles/StaticFile do nothing but hand the request to the file server (or serve the
+// one configured file) that was bound at registration time: no other file API is called, and no file name is
+// built from the request (any such call would be an uncontracted external effect or break these clauses).
+//
+// fileServes(w): number of http.ServeFile calls on writer w; servedFile(w): the name passed to the last one.
+//@ ghost fileServes(ref) int
+//@ ghost servedFile(ref) string
+//@ extern net/http.ServeFile(w, r, name)
+//@   requires hastype(w, *responseWriter) ==> rwOf(w) != nil && wInv(rwOf(w))
+//@   modifies fileServes(refof(w)), servedFile(refof(w))
+//@   modifies rwOf(w).status, rwOf(w).length, hdrCalls(rwOf(w).Writer), hdrStatus(rwOf(w).Writer), body(rwOf(w).Writer), early(rwOf(w).Writer), allentries(http.Header), headerVal(_, _)
+//@   ensures fileServes(refof(w)) == old(fileServes(refof(w))) + 1 && servedFile(refof(w)) == name
+//@   ensures hastype(w, *responseWriter) ==> wInv(rwOf(w))
+//
+//@ func (*Context).File [C17]
+//@   requires respBound(c) && wInv(&c.writer)
+//@   modifies fileServes(refof(c.Resp)), servedFile(refof(c.Resp))
+//@   modifies c.writer.status, c.writer.length, hdrCalls(c.writer.Writer), hdrStatus(c.writer.Writer), body(c.writer.Writer), early(c.writer.Writer), allentries(http.Header), headerVal(_, _)
+//@   ensures serves_exactly_that_file: fileServes(refof(c.Resp)) == old(fileServes(refof(c.Resp))) + 1 && servedFile(refof(c.Resp)) == filePath
+//@   ensures inv: wInv(&c.writer)
+//@ func (*Router).StaticFile$1 [C17]
+//@   requires c != nil && respBound(c) && wInv(&c.writer)
+//@   modifies fileServes(refof(c.Resp)), servedFile(refof(c.Resp))
+//@   modifies c.writer.status, c.writer.length, hdrCalls(c.writer.Writer), hdrStatus(c.writer.Writer), body(c.writer.Writer), early(c.writer.Writer), allentries(http.Header), headerVal(_, _)
+//@   ensures serves_the_configured_file_only: fileServes(refof(c.Resp)) == old(fileServes(refof(c.Resp))) + 1 && servedFile(refof(c.Resp)) == filePath
+//@ func (*Router).StaticDir$1 [C17]
+//@   requires c != nil && fsHandler != nil
+//@   modifies served(fsHandler), servedReq(fsHandler), servedW(fsHandler)
+//@   modifies rwOf(c.Resp).status, rwOf(c.Resp).length, hdrCalls(rwOf(c.Resp).Writer), hdrStatus(rwOf(c.Resp).Writer), body(rwOf(c.Resp).Writer), early(rwOf(c.Resp).Writer)
+//@   panics *
+//@   ensures delegates_to_the_file_server: served(fsHandler) == old(served(fsHandler)) + 1 && servedReq(fsHandler) == c.Req && servedW(fsHandler) == refof(c.Resp)
+//@   ensures no_direct_file_access: fileServes(refof(c.Resp)) == old(fileServes(refof(c.Resp)))
+//@   ensures request_untouched: c.Req == old(c.Req) && c.Req.URL == old(c.Req.URL)
+//@ func (*Router).StaticFS$1 [C17]
+//@   requires c != nil && fsHandler != nil
+//@   modifies served(fsHandler), servedReq(fsHandler), servedW(fsHandler)
+//@   modifies rwOf(c.Resp).status, rwOf(c.Resp).length, hdrCalls(rwOf(c.Resp).Writer), hdrStatus(rwOf(c.Resp).Writer), body(rwOf(c.Resp).Writer), early(rwOf(c.Resp).Writer)
+//@   panics *
+//@   ensures delegates_to_the_file_server: served(fsHandler) == old(served(fsHandler)) + 1 && servedReq(fsHandler) == c.Req && servedW(fsHandler) == refof(c.Resp)
+//@   ensures no_direct_file_access: fileServes(refof(c.Resp)) == old(fileServes(refof(c.Resp)))
+//@ func (*Router).StaticFiles$1 [C17]
+//@   requires c != nil && fsHandler != nil && c.Req != nil && c.Req.URL != nil
+//@   modifies served(fsHandler), servedReq(fsHandler), servedW(fsHandler), c.Req.URL.Path
+//@   modifies rwOf(c.Resp).status, rwOf(c.Resp).length, hdrCalls(rwOf(c.Resp).Writer), hdrStatus(rwOf(c.Resp).Writer), body(rwOf(c.Resp).Writer), early(rwOf(c.Resp).Writer)
+//@   panics *
+//@   ensures delegates_to_the_file_server: served(fsHandler) == old(served(fsHandler)) + 1 && servedReq(fsHandler) == c.Req && servedW(fsHandler) == refof(c.Resp)
+//@   ensures path_is_the_matched_file_param: c.Req.URL.Path == old(c.Params["file"])
+//@   ensures no_direct_file_access: fileServes(refof(c.Resp)) == old(fileServes(refof(c.Resp)))
